@@ -300,6 +300,31 @@ func (c *bCombo) build(withCuts bool) {
 			}
 		}
 	}
+	// ---- condition variables: a Wait returns after a Broadcast that follows its registration ----
+	for i, t := range c.tr {
+		for k, e := range t.Events {
+			if e.Kind != "cond-wait" {
+				continue
+			}
+			reg := c.condReg(i, k)
+			any := tc.False
+			for j, t2 := range c.tr {
+				if j == i {
+					continue
+				}
+				for l, e2 := range t2.Events {
+					if e2.Kind == "cond-bcast" && e2.Obj == e.Obj {
+						w := tc.And(c.exec(j, l), c.lt(c.ts(j, l), c.ts(i, k)))
+						if reg >= 0 {
+							w = tc.And(w, c.lt(c.ts(i, reg), c.ts(j, l)))
+						}
+						any = tc.Or(any, w)
+					}
+				}
+			}
+			c.base = append(c.base, tc.Implies(tc.And(c.exec(i, k), c.execNext(i, k)), any))
+		}
+	}
 	// ---- WaitGroups: Wait returns when the counter is zero ----
 	for i, t := range c.tr {
 		for k, e := range t.Events {
@@ -318,6 +343,17 @@ func (c *bCombo) build(withCuts bool) {
 			c.base = append(c.base, tc.Implies(tc.And(c.exec(i, k), c.execNext(i, k)), tc.Eq(sum, tc.BV(tsW, 0))))
 		}
 	}
+}
+
+// condReg: index of the registration event of the cond-wait at (i,k), -1 if none.
+func (c *bCombo) condReg(i, k int) int {
+	obj := c.tr[i].Events[k].Obj
+	for r := k - 1; r >= 0; r-- {
+		if e := c.tr[i].Events[r]; e.Kind == "cond-reg" && e.Obj == obj {
+			return r
+		}
+	}
+	return -1
 }
 
 // execNext: the event after (i,k) is executed, i.e. (i,k) has completed.
@@ -641,6 +677,7 @@ func phaseB(l *Loaded, res *HarnessResult, names []string, traces [][]*ThreadTra
 	// blocked (dead-lock candidates), then the complete ones; each pass has the
 	// combination budget to itself
 	pass := 1
+	passStart := 0 // ncombo when the current pass began
 	passOf := func() int {
 		for i := range traces {
 			if traces[i][idx[i]].Status != "done" {
@@ -683,7 +720,7 @@ func phaseB(l *Loaded, res *HarnessResult, names []string, traces [][]*ThreadTra
 				if pass == 2 {
 					break
 				}
-				pass, nsolved = 2, 0
+				pass, nsolved, passStart = 2, 0, ncombo
 			}
 			continue
 		}
@@ -729,7 +766,7 @@ func phaseB(l *Loaded, res *HarnessResult, names []string, traces [][]*ThreadTra
 				res.Reached["combination-consistent"]++
 				ivs := c.intervals()
 				// (2) overlap queries
-				for a := 0; a < len(ivs); a++ {
+				for a := 0; a < len(ivs) && params["no_overlap"] != 1; a++ {
 					for b := a + 1; b < len(ivs); b++ {
 						x, y := ivs[a], ivs[b]
 						if x.thread == y.thread || x.exit < 0 || y.exit < 0 {
@@ -770,6 +807,26 @@ func phaseB(l *Loaded, res *HarnessResult, names []string, traces [][]*ThreadTra
 						addViol("open-twice", "File "+f+" is opened by "+strconv.Itoa(n)+" requests in one consistent interleaving", c.witness(solver))
 					} else {
 						discharged("open-once/" + comboKey + f)
+					}
+				}
+				// isolation (C16): threads declared disjoint observe what they observe alone
+				if res.Reached["disjoint-pair"] > 0 && res.soloReplies != nil {
+					for i, t := range c.tr {
+						if i >= len(res.soloReplies) {
+							continue
+						}
+						got := replyOf(t)
+						if res.soloReplies[i][got] {
+							discharged("isolation/" + comboKey + "/" + names[i])
+							res.Reached["isolated-result-as-alone"]++
+						} else {
+							var alone []string
+							for k := range res.soloReplies[i] {
+								alone = append(alone, k)
+							}
+							sort.Strings(alone)
+							addViol("isolation-result-differs", fmt.Sprintf("thread %s observes %s, running alone %s", names[i], got, strings.Join(alone, " or ")), c.witness(solver))
+						}
 					}
 				}
 				// (3) marks: flush ordering and frame contiguity
@@ -813,14 +870,14 @@ func phaseB(l *Loaded, res *HarnessResult, names []string, traces [][]*ThreadTra
 			if pass == 2 {
 				break
 			}
-			pass, nsolved = 2, 0
+			pass, nsolved, passStart = 2, 0, ncombo
 			continue
 		}
 		maxCombos := 600
 		if v, ok := params["max_combos"]; ok {
 			maxCombos = v
 		}
-		if nsolved >= maxCombos || ncombo > 200000 {
+		if nsolved >= maxCombos || ncombo-passStart > 20*maxCombos {
 			total := 1
 			for _, tt := range traces {
 				total *= len(tt)
@@ -832,7 +889,7 @@ func phaseB(l *Loaded, res *HarnessResult, names []string, traces [][]*ThreadTra
 			if pass == 2 {
 				break
 			}
-			pass, nsolved = 2, 0
+			pass, nsolved, passStart = 2, 0, ncombo
 			for i := range idx {
 				idx[i] = 0
 			}
@@ -916,6 +973,24 @@ func (c *bCombo) checkDeadlock(s *Solver, comboKey string, addViol func(string, 
 					}
 				}
 				blocked = tc.Not(closed)
+			case "cond-wait":
+				reg := c.condReg(i, k)
+				woken := tc.False
+				for j, t2 := range c.tr {
+					if j == i {
+						continue
+					}
+					for l, e2 := range t2.Events {
+						if e2.Kind == "cond-bcast" && e2.Obj == e.Obj {
+							w := c.exec(j, l)
+							if reg >= 0 {
+								w = tc.And(w, c.lt(c.ts(i, reg), c.ts(j, l)))
+							}
+							woken = tc.Or(woken, w)
+						}
+					}
+				}
+				blocked = tc.Not(woken)
 			case "wg-wait":
 				sum := tc.BV(tsW, 0)
 				for j, t2 := range c.tr {
@@ -1215,7 +1290,7 @@ func (c *bCombo) needsDeadlockQuery() bool {
 				if e.Mode == "wait" {
 					return true
 				}
-			case "wg-wait", "chan-send":
+			case "wg-wait", "chan-send", "cond-wait":
 				return true
 			}
 		}
